@@ -61,6 +61,21 @@ class _Ops(dict):
             return o
         raise KeyError(name)
 
+    def get(self, name, default=None):
+        try:
+            return self[name]
+        except KeyError:
+            return default
+
+    def __contains__(self, name):
+        if dict.__contains__(self, name):
+            return True
+        try:
+            self[name]
+            return True
+        except (KeyError, TypeError):
+            return False
+
 
 OPS = _Ops()
 
@@ -4442,6 +4457,55 @@ grid("metric", "g_metric_shapes", _g_metric_shapes,
           method=[("pdist", "pdist"), ("cdist", "cdist")]), cap=50)
 
 
+# boundaries of the random paths: a cap that equals the size draws nothing (and must keep drawing nothing)
+def _g_maxseqs_exact(H, fn, delta):
+    if fn == "downsample_list":
+        return prs.downsample(H["seqs_list"], len(H["seqs_list"]) + delta)
+    if fn == "downsample_arr":
+        return prs.downsample(H["seqs_arr"], len(H["seqs_arr"]) + delta)
+    if fn == "downsample_table":
+        return prs.downsample(H["df_tcr"], len(H["df_tcr"]) + delta)
+    if fn == "pcDelta":
+        return prs.pcDelta(H["seqs_list"], maxseqs=len(H["seqs_list"]) + delta, bins=H["bins_arr"])
+    if fn == "pcDelta_two":
+        return prs.pcDelta(H["seqs_list"], H["seqs_list2"], maxseqs=max(len(H["seqs_list"]), len(H["seqs_list2"])) + delta, bins=H["bins_arr"])
+    if fn == "pcDelta_table":
+        return prs.pcDelta(H["df_tcr"], maxseqs=len(H["df_tcr"]) + delta, bins=H["bins_arr"])
+    if fn == "grouped":
+        return prs.pcDelta_grouped(H["df_cluster"], "epitope", "cdr3b", bins=H["bins_arr"], maxseqs=int(H["df_cluster"]["epitope"].value_counts().max()) + delta)
+    return prs.subsample(H["counts_arr"], int(np.sum(H["counts_arr"])) + min(delta, 0))
+
+
+_EXACT_FNS = [(x, x) for x in ("downsample_list", "downsample_arr", "downsample_table", "pcDelta", "pcDelta_two", "pcDelta_table", "grouped", "subsample_all")]
+# a cap that does not bind: deterministic by the documented contract ("returns the input collection without modification"), hence
+# NOT declared randomised - such a call must neither depend on the generators nor advance them
+grid("downsample", "g_maxseqs_nonbinding", _g_maxseqs_exact, dict(fn=_EXACT_FNS[:-1], delta=[("eq", 0), ("plus1", 1)]), cap=30)
+grid("downsample", "g_maxseqs_binding", _g_maxseqs_exact, dict(fn=_EXACT_FNS, delta=[("minus1", -1)]), cap=30, rand=True)
+
+
+# the same input under every search radius, with the threshold taken over by max_custom_distance (a callable distance): what is
+# found then depends on which candidates the index nominates - state shared between radii shows here and nowhere else
+def _g_radius(H, fn, seqs, max_edits, cbk, mcd):
+    cb = {"lev2": cb_lev2, "half": cb_half}[cbk]
+    kw = dict(custom_distance=cb, max_custom_distance=mcd)
+    if fn == "symdel":
+        return sorted(prs.symdel(seqs, max_edits=max_edits, **kw))
+    if fn == "nn2":
+        return sorted(prs.nearest_neighbor(seqs, max_edits=max_edits, seqs2=H["seqs_list2"], **kw))
+    if fn == "symdeldb":
+        return sorted(prs.SymdelDB(seqs, max_edits).lookup(H["seqs_list2"], **kw))
+    if fn == "lookupdb":
+        return sorted(prs.LookupDB(seqs).lookup(H["seqs_short"], max_edits=min(max_edits, 2), **kw))
+    if fn == "hash_based":
+        return sorted(prs.hash_based(H["seqs_short"], max_edits=min(max_edits, 2), **kw))
+    return sorted(prs.kdtree(seqs, max_edits=max_edits, **kw))
+
+
+grid("symdel", "g_radius", _g_radius,
+     dict(fn=[(x, x) for x in ("symdel", "nn2", "symdeldb", "lookupdb", "hash_based", "kdtree")], seqs=[("list", "H:seqs_list"), ("arr", "H:seqs_arr")],
+          max_edits=[("1", 1), ("2", 2), ("3", 3)], cbk=[("lev2", "lev2"), ("half", "half")], mcd=[("1", 1), ("2", 2), ("4", 4), ("6", 6)]), cap=60)
+
+
 # =============================================================================================
 # random-argument templates: the ARGUMENTS come from a seeded generator A (one fixed value per 'base~<n>' name), drawn from
 # small spaces on purpose, so that two templates of one base often share part of what a careless cache key would look at - the
@@ -4524,10 +4588,20 @@ def _r_mode(A):
     return A.choice([None, None, "hamming"])
 
 
+def _r_dist_kw(A):
+    """custom_distance / max_custom_distance: default, Hamming, or a callable with a finite threshold of its own."""
+    k = A.choice(["lev", "lev", "ham", "cb", "cb"])
+    if k == "lev":
+        return {}
+    if k == "ham":
+        return {"custom_distance": "hamming"}
+    return {"custom_distance": A.choice([cb_lev2, cb_half]), "max_custom_distance": A.choice([1, 2, 4, 6])}
+
+
 @randop("symdel", post=sorted_list)
 def r_symdel(H, A):
     seqs = H.arg("seqs", _r_container(A, _r_seqs(A)))
-    return prs.symdel(seqs, max_edits=A.choice([1, 1, 2]), custom_distance=_r_mode(A))
+    return prs.symdel(seqs, max_edits=A.choice([1, 1, 2, 3]), **_r_dist_kw(A))
 
 
 @randop("symdel", post=sorted_list)
@@ -4535,7 +4609,7 @@ def r_symdel_two(H, A):
     seqs = H.arg("seqs", _r_container(A, _r_seqs(A)))
     seqs2 = H.arg("seqs2", _r_container(A, _r_seqs(A, n=A.choice([2, 3, 5]))))
     fn = A.choice([prs.symdel, prs.nearest_neighbor])
-    return fn(seqs, max_edits=A.choice([1, 2]), custom_distance=_r_mode(A), seqs2=seqs2)
+    return fn(seqs, max_edits=A.choice([1, 2, 3]), seqs2=seqs2, **_r_dist_kw(A))
 
 
 @randop("hash_based", post=sorted_list)
@@ -4567,11 +4641,11 @@ def r_kdtree_pool(H, A):
 @randop("db", post=sorted_list)
 def r_symdeldb(H, A):
     ref = H.arg("ref", _r_container(A, _r_seqs(A)))
-    db = prs.SymdelDB(ref, A.choice([1, 2]))
+    db = prs.SymdelDB(ref, A.choice([1, 2, 3]))
     q1 = H.arg("q1", _r_seqs(A, n=3))
     q2 = H.arg("q2", _r_seqs(A, n=3))
-    m1, m2 = _r_mode(A), _r_mode(A)
-    return [sorted(db.lookup(q1, custom_distance=m1)), sorted(db.lookup(q2, custom_distance=m2)), sorted(db.lookup(q1, custom_distance=m2))]
+    m1, m2 = _r_dist_kw(A), _r_dist_kw(A)
+    return [sorted(db.lookup(q1, **m1)), sorted(db.lookup(q2, **m2)), sorted(db.lookup(q1, **m2))]
 
 
 @randop("db", post=sorted_list)
